@@ -74,6 +74,9 @@ EXTRA = [
     # operators in GROUP BY / ORDER BY keys of a query without WHERE
     'count(*) from . group by size % 2', 'size * 2 , count(*) from . group by size * 2 order by 1', 'name from . order by size + 1 , name',
     'count(*) from sub group by size > 3', 'name from . order by size = 4 , name limit 5', 'name from sub order by size mod 3 desc , name',
+    # root options of the default root (no FROM), the first option in every spelling
+    'name symlinks', 'name , size archives', 'name gitignore depth 2', 'name hgignore', 'name dockerignore dfs', 'name depth 2', 'name mindepth 1 maxdepth 2',
+    'name dfs', 'name nogitignore symlinks', 'name , size symlinks where size > 1 order by 1',
     'name from su.* regexp', 'name from [s]ub maxdepth 1 regexp', 'name , size from e , su.* regexp dfs where name regexp ^a order by 1',
 ]
 
